@@ -9,10 +9,12 @@ import (
 	"time"
 
 	"go.miragespace.co/specter/chord"
+	"go.miragespace.co/specter/kv/aof"
 	"go.miragespace.co/specter/kv/memory"
 	spec "go.miragespace.co/specter/spec/chord"
 	"go.miragespace.co/specter/spec/protocol"
 	"go.miragespace.co/specter/spec/rtt"
+	"specterverif/simfs"
 	"specterverif/simnet"
 	"specterverif/simrt"
 
@@ -131,6 +133,7 @@ type Cluster struct {
 	logger *zap.Logger
 	mu     sync.Mutex
 	OnReply func(simnet.Call)
+	fs     *simfs.FS // simulated disk under the append-only-log stores of this cluster
 }
 
 // debugging aid: VERIF_RPCLOG=1 records every failed RPC in the event log
@@ -163,6 +166,20 @@ func NewCluster(p *Plan) *Cluster {
 
 func (c *Cluster) newKV(spec NodeSpec, name string, inc int) (spec.KVProvider, func()) {
 	switch spec.Backend {
+	case "aof":
+		// the real append-only-log store on the simulated disk (one disk for the whole cluster,
+		// one data directory per node incarnation); its writer goroutine is a task of the node
+		if c.fs == nil {
+			c.fs = simfs.New()
+			simfs.Cur = c.fs
+		}
+		d, err := aof.New(aof.Config{Logger: zap.NewNop(), HasnFn: spec2hash(), DataDir: "/data/" + name, FlushInterval: 3 * time.Second})
+		if err != nil {
+			panic("aof.New on an empty simulated disk failed: " + err.Error())
+		}
+		simrt.GoGroup("aof-writer", name, d.Start)
+		simrt.Probe("aof-backed-node")
+		return d, func() { d.Stop() }
 	default:
 		return memory.WithHashFn(spec2hash()), func() {}
 	}
